@@ -283,6 +283,7 @@ func (e *engine) evalStrata() error {
 			e.store.Add(f)
 		}
 	}
+	verifEvent("LoadFacts", e, nil)
 	for i := 0; i < len(e.strata); i++ {
 		stratumEdbPredicates := make(map[ast.PredicateSym]struct{})
 		for j := 0; j < i; j++ {
@@ -512,6 +513,7 @@ func (e *engine) mergeDelta() error {
 
 func (e *engine) eval() error {
 	predicateAllowList := *e.options.predicateAllowList
+	verifEvent("BeginStratum", e, nil)
 	// First round.
 	for _, clause := range e.programInfo.Rules {
 		if !predicateAllowList(clause.Head.Predicate) {
@@ -542,6 +544,7 @@ func (e *engine) eval() error {
 			}
 		}
 	}
+	verifEvent("FirstRound", e, e.deltaStore)
 	doPhaseDone := false
 incremental:
 	if e.deltaStore.EstimateFactCount() > 0 || (e.temporalDeltaStore != nil && e.temporalDeltaStore.EstimateFactCount() > 0) {
@@ -564,6 +567,7 @@ incremental:
 		if err := e.mergeDelta(); err != nil {
 			return err
 		}
+		verifEvent("Merge0", e, e.deltaStore)
 		for {
 			newDeltaStore := factstore.NewMultiIndexedArrayInMemoryStore()
 			var newTemporalDeltaStore factstore.TemporalFactStore
@@ -610,6 +614,7 @@ incremental:
 			if err := e.mergeDelta(); err != nil {
 				return err
 			}
+			verifEvent("DeltaRound", e, e.deltaStore)
 			if e.options.totalFactLimit > 0 && e.store.EstimateFactCount() > e.options.totalFactLimit {
 				return fmt.Errorf("fact size limit reached %d > %d", e.store.EstimateFactCount(), e.options.totalFactLimit)
 			}
@@ -671,6 +676,7 @@ incremental:
 			return merr
 		}
 	}
+	verifEvent("DoPhase", e, doDelta)
 	if doDelta.EstimateFactCount() > 0 {
 		doPhaseDone = true
 		e.deltaStore = doDelta
